@@ -28,6 +28,9 @@ checks={
  "C15":dict(text=LVL+"Once (10 wrapper kinds incl. ft.Once/OnceDo, adt.Once, Mnemonize) under concurrent callers with a symbolic result; Limit(n) with symbolic n, sequentially (solver decides executions = min(n,calls) and the cached last result) and with 2x2 concurrent calls (lock-free fast path explored by the scheduler); Lock/WithLock concurrency gauge; Retry(n) with symbolic n over every outcome sequence; PreHook/PostHook/Join order logs with live and cancelled contexts; Launch/Signal/Background/StartGroup waiters parked at quiescence while the background function is blocked",
             note="<=2 (quick) / <=3 (thorough) concurrent callers, preemption bound 2 / 3; n<=4, <=5 calls; TTL/Delay/After/Jitter/Interval (wall clock) outside; trusted: sync.Once/Mutex/atomic/channel models of DESIGN §3.2",
             ref="§5 C15", tech="SSA symbolic execution + SMT for n/count arithmetic, symbolic scheduler for the concurrent clauses"),
+ "C05":dict(text=LVL+"(L2) one-step refinement: every option combination within the bounds, a canonical prefix of Add/Remove, optional Close, then 2 (3) arbitrary operations out of 9 compared with a reference FIFO (return values, Len, full drain; item values symbolic); (L2') one add/remove of the burst-credit tracker from an arbitrary valid private state with symbolic Float64 credit against the documented credit rules; (L1) happens-before race monitor on every concurrent execution; (cross-check) concurrent histories of 3 (4) operations of 10 kinds in 2 (3) goroutines under the symbolic scheduler, with a search for a real-time-consistent linearization explaining all return values and the final contents",
+            note="hard limit <=4, prefix <=4 (5); tracker step: hard limit <=16; histories: unlimited and capacity-1 queues, preemption bound 2 (3); admission after a removal is specified only as {ok, ErrQueueNoCredit} below the hard limit (the credit granted by a removal and the dynamic soft quota are not documented); the reduction from 'lock discipline + one-step refinement' to linearizability of all histories is an argument (DESIGN C05), not a query; trusted: sync/cond/context models",
+            ref="§5 C05", tech="SSA symbolic execution + SMT (BV, Float64 for the credit step), symbolic scheduler + linearization search for histories"),
 }
 NA={}
 m={"version":1,
